@@ -15,6 +15,7 @@ import shutil
 import urllib.request
 from pathlib import Path
 
+import converttable
 import core
 import projmodel
 import suitetrace
@@ -370,12 +371,14 @@ def run(ctx: core.Ctx) -> int:
     # every CLI invocation of the repository's own tests: exit status in {0, 1, 2}, no unhandled exception
     events += suitetrace.for_c16(suitetrace.collect(ctx), 100000)
     ctx.validate("Trace_C16", "Trace_C16.cfg", events)
+    # ConvertTable.tla: every refusal of convert-dep5 is a usage error (exit status 2), never a traceback
+    cv = converttable.stage(ctx, ("C16.", "crash"))
     for r in ctx.rejects:
         d = r.get("detail")
         if isinstance(d, list):
             r["detail"] = {"input": d[0], "command": d[1], "exit": d[2], "tail": d[3]}
     return ctx.finish(
-        evaluations=len(events),
+        evaluations=len(events) + len(cv["events"]),
         distinct_nontrivial=len({(e["label"], e["cmd"]) for e in events if e["class"] != "valid"}),
         rule="REUSE.toml shape matrix: 6 keys x 16 value shapes, every single deviation x 7 sub-commands (complete), pairs of "
              "deviations (quick: seeded sample of 250; thorough: all) x 2 sub-commands; 18 further classes (broken / non-UTF-8 "
@@ -384,7 +387,7 @@ def run(ctx: core.Ctx) -> int:
              "LICENSES as a file, broken template) x every sub-command; a sample through the real executable; every CLI invocation "
              "of the repository's own tests/test_cli_*.py (exit-status discipline only); "
              "non-trivial = (input, command) pairs whose input is not a valid configuration",
-        mc_violations=[{"clause": f"model:{v}", "kf": "", "detail": mc["out"][-1500:]} for v in mc["violated"]])
+        mc_violations=[{"clause": f"model:{v}", "kf": "", "detail": mc["out"][-1500:]} for v in mc["violated"]] + cv["mc_violations"])
 
 
 def replay(ctx: core.Ctx, path: str) -> int:
